@@ -745,3 +745,72 @@ def known_witness(fid):
         out = calc_step_fn_vals_error([1, 2, 4, 4])
         return not np.allclose(np.asarray(out, dtype=float), [8 / 3, 1.0, 10 / 3, 5.0])
     return True
+
+
+# ---- extras2 (harness extension hx_b): exact covariance under scaling by powers of two ---------------------------------------------------------
+
+def _x2_scale(ctx, cur):
+    """(2) interp2d / interp_left are of degree 1 in the tabulated values and of degree 0 under a joint scaling of nodes and queries; the rolling
+    average, the step levels and the p=1 step-fit error are of degree 1 in the series, the p=2 error of degree 2; S_d is linear in Z. All exact
+    for power-of-two factors (2^+-600 for degree 1, 2^+-350 / 2^+-200 for degree 2). interp2d's node gaps must stay above its documented 1e-10
+    guard, so nodes are only scaled UP or mildly down (2^-20 with gaps >= 1e-2)."""
+    from eqsig.fns import generic, average
+    from eqsig import design_spectra as ds
+    from _hxb_common import same, val
+    rng = ctx.rng
+    for it in range(40 if ctx.tier == 'quick' else 400):
+        m = rng.randint(2, 12)
+        xf = np.cumsum([rng.uniform(0.01, 2.0) for _ in range(m)]) + rng.uniform(-3, 3)
+        f = np.array([[rng.gauss(0, 1) for _ in range(3)] for _ in range(m)])
+        x = np.array([rng.choice([rng.uniform(xf[0] - 1, xf[-1] + 1), float(rng.choice(list(xf)))]) for _ in range(6)])
+        y = np.array([rng.gauss(0, 1) for _ in range(m)])
+        x0 = np.array([max(rng.uniform(xf[0], xf[-1] + 1), xf[0]) for _ in range(5)])
+        v = gen.any_record(rng, rng.randint(3, 40))[1]
+        steps = rng.randint(1, len(v))
+        mode = rng.choice(['forward', 'backward', 'centre'])
+        T, site = rng.choice([0.0, 0.05, 0.3, 0.7, 1.5, 3.0, 4.5, rng.uniform(0, 5)]), rng.choice(['C', 'D', 'E'])
+        inputs = {'xf': xf, 'f': f, 'x': x, 'y': y, 'x0': x0, 'values': v, 'steps': steps, 'mode': mode, 'period': T, 'site_class': site}
+        cur.clear()
+        cur.update(inputs)
+        ctx.hist('extras2/scale')
+        ctx.count_case(('x2s', xf.tobytes(), f.tobytes(), x.tobytes(), v.tobytes(), steps, mode), True)
+        import warnings
+        with np.errstate(all='ignore'), warnings.catch_warnings():
+            warnings.simplefilter('ignore')
+            I, L = generic.interp2d(x, xf, f), generic.interp_left(x0, xf, y)
+            R = average.calc_roll_av_vals(v, steps, mode=mode)
+            E1, E2 = average.calc_step_fn_vals_error(v, pow=1), average.calc_step_fn_vals_error(v, pow=2)
+            SV = np.array(average.calc_step_fn_steps_vals(v), dtype=float)
+            SD = val(quiet(ds.sd_nzs, T, site, 0.3, 1.0, 1.0))
+        for k in gen.EXTREME_POW2 + (200, -200, 40, -20):
+            F = 2.0 ** k
+            sc = {**inputs, 'scale': '2**%d' % k}
+            with np.errstate(all='ignore'):
+                ctx.oracle('C20.a interp2d is linear in the table: scaling f by a power of two scales the result exactly', gen.scaled_exactly(val(call_impl(generic.interp2d, x, xf, f * F)), I, F), sc)
+                if k >= -20:
+                    ctx.oracle('C20.a interp2d: scaling nodes and queries by the same power of two (gaps above the 1e-10 guard) leaves the result unchanged',
+                               same(val(call_impl(generic.interp2d, x * F, xf * F, f)), I), sc)
+                ctx.oracle('C20.b interp_left is linear in y: scaling y by a power of two scales the result exactly', gen.scaled_exactly(val(call_impl(generic.interp_left, x0, xf, y * F)), L, F), sc)
+                ctx.oracle('C20.b interp_left: scaling nodes and queries by the same power of two leaves the result unchanged', same(val(call_impl(generic.interp_left, x0 * F, xf * F, y)), L), sc)
+                ctx.oracle('C20.c the rolling average scales exactly with the series (power of two)', gen.scaled_exactly(val(call_impl(average.calc_roll_av_vals, v * F, steps, mode=mode)), R, F), sc)
+                ctx.oracle('C20.d the p=1 step-fit error scales exactly with the series (power of two)', gen.scaled_exactly(val(call_impl(average.calc_step_fn_vals_error, v * F, pow=1)), E1, F), sc)
+                if abs(k) <= 350:
+                    ctx.oracle('C20.d the p=2 step-fit error scales exactly with the square of a power-of-two factor', gen.scaled_exactly(val(call_impl(average.calc_step_fn_vals_error, v * F, pow=2)), E2, F * F), sc)
+                g = val(call_impl(average.calc_step_fn_steps_vals, v * F))
+                ctx.oracle('C20.e the step levels scale exactly with the series (power of two)', g is not None and gen.scaled_exactly(np.array(g, dtype=float), SV, F), sc)
+                g = val(quiet(ds.sd_nzs, T, site, 0.3 * F, 1.0, 1.0))
+                ctx.oracle('C20.f S_d is linear in Z: scaling Z by a power of two scales it exactly', g is not None and SD is not None and gen.scaled_exactly(np.asarray(g, dtype=float), np.asarray(SD, dtype=float), F), sc)
+
+
+def extras2(ctx):
+    from _hxb_common import guarded_sections
+    guarded_sections(ctx, 'C20', [('scale', _x2_scale)])
+
+
+_run_main2 = run
+
+
+def run(ctx):
+    _run_main2(ctx)
+    extras2(ctx)
+    ctx.flush()
